@@ -12,7 +12,32 @@ import (
 // content classes, loader configuration, what the parent loader binds), the operations, and the observed
 // outcome + read list per operation.
 
+// gs: a Go string by reference to the string table of the cases file (reading a string literal or a long
+// numeral costs Coq about a millisecond; a case mentions the same few paths and names over and over)
+var strTab = map[string]int{}
+var strList []string
+
+func gs(s string) string {
+	id, ok := strTab[s]
+	if !ok {
+		id = len(strList)
+		strTab[s] = id
+		strList = append(strList, s)
+	}
+	return fmt.Sprintf("s%d", id)
+}
+
+// strPrelude: the definitions of the string table
+func strPrelude() string {
+	var b strings.Builder
+	for i, s := range strList {
+		fmt.Fprintf(&b, "Definition s%d : str := %s.\n", i, lib.GStr(s))
+	}
+	return b.String()
+}
+
 func newCasesFile() *lib.CasesFile {
+	strTab, strList = map[string]int{}, nil // one string table per cases file
 	return &lib.CasesFile{Imports: []string{"Model.Base", "Model.FileLoader", "Corr.CorrC15"}, Typ: "ccase",
 		Obligations: map[string]string{"fileloader": "c15_mismatches cases"}}
 }
@@ -59,17 +84,17 @@ func gContent(f *FileSpec, unreadable bool) (content string, marker int, defline
 	strs := func(l []string) string {
 		var es []string
 		for _, s := range l {
-			es = append(es, lib.GStr(s))
+			es = append(es, gs(s))
 		}
 		return lib.GList(es, "str")
 	}
 	switch c.Class {
 	case "good":
-		return fmt.Sprintf("(CGood %s %s)", lib.GStr(c.Declared), strs(c.Refs)), marker, defline
+		return fmt.Sprintf("(CGood %s %s)", gs(c.Declared), strs(c.Refs)), marker, defline
 	case "anon":
 		return fmt.Sprintf("(CAnon %s)", strs(c.Refs)), marker, defline
 	case "typeset":
-		return fmt.Sprintf("(CTypeSet %s %s)", lib.GStr(c.Declared), strs(c.Members)), marker, defline
+		return fmt.Sprintf("(CTypeSet %s %s)", gs(c.Declared), strs(c.Members)), marker, defline
 	case "malformed":
 		return fmt.Sprintf("(CMalformed %s)", lib.GN(uint64(malformedLine(c)))), marker, defline
 	case "nodef":
@@ -98,7 +123,7 @@ func gFile(rel string, isDir bool, f *FileSpec, mode000 bool) string {
 		content, marker, defline = gContent(f, isUnreadable(f, mode000))
 	}
 	return fmt.Sprintf("{| f_rel := %s; f_dir := %s; f_content := %s; f_marker := %s; f_defline := %s |}",
-		lib.GStr(rel), lib.GBool(isDir), content, lib.GN(uint64(marker)), lib.GN(uint64(defline)))
+		gs(rel), lib.GBool(isDir), content, lib.GN(uint64(marker)), lib.GN(uint64(defline)))
 }
 
 func gMod(m *ModSpec, walk []WalkEntry, mode000 bool) string {
@@ -110,7 +135,7 @@ func gMod(m *ModSpec, walk []WalkEntry, mode000 bool) string {
 	for _, w := range walk {
 		fs = append(fs, gFile(w.Rel, w.IsDir, by[w.Rel], mode000))
 	}
-	return fmt.Sprintf("{| m_name := %s; m_walk := %s |}", lib.GStr(m.Name), lib.GList(fs, "file"))
+	return fmt.Sprintf("{| m_name := %s; m_walk := %s |}", gs(m.Name), lib.GList(fs, "file"))
 }
 
 // fileRef: a path relative to the case root ("<dir>/<rel>") as (index of the model module, rel)
@@ -131,7 +156,7 @@ func fileRef(cs *Case, mm []int, p string) (int, string, bool) {
 func gOut(cs *Case, mm []int, o *Outcome) string {
 	switch o.Kind {
 	case "found":
-		return fmt.Sprintf("(OFound {| tv_name := %s; tv_marker := %s; tv_ts := %s |})", lib.GStr(lowerASCII(o.Name)), lib.GN(uint64(o.Marker)), lib.GBool(o.IsTS))
+		return fmt.Sprintf("(OFound {| tv_name := %s; tv_marker := %s; tv_ts := %s |})", gs(lowerASCII(o.Name)), lib.GN(uint64(o.Marker)), lib.GBool(o.IsTS))
 	case "notfound":
 		return "ONotFound"
 	case "bool":
@@ -139,24 +164,24 @@ func gOut(cs *Case, mm []int, o *Outcome) string {
 	case "list":
 		var es []string
 		for _, s := range o.List {
-			es = append(es, lib.GStr(s))
+			es = append(es, gs(s))
 		}
 		return "(OList " + lib.GList(es, "str") + ")"
 	case "str":
-		return "(OStr " + lib.GStr(o.Str) + ")"
+		return "(OStr " + gs(o.Str) + ")"
 	case "panic":
 		return "OFault"
 	case "reported":
 		loc := func() (string, bool) {
 			if k, rel, ok := fileRef(cs, mm, o.LocFile); ok {
-				return fmt.Sprintf("%s %s", lib.GNat(k), lib.GStr(rel)), true
+				return fmt.Sprintf("%s %s", lib.GNat(k), gs(rel)), true
 			}
 			return "", false
 		}
 		arg := func() (string, bool) {
 			for _, a := range o.ArgFiles {
 				if k, rel, ok := fileRef(cs, mm, a); ok {
-					return fmt.Sprintf("%s %s", lib.GNat(k), lib.GStr(rel)), true
+					return fmt.Sprintf("%s %s", lib.GNat(k), gs(rel)), true
 				}
 			}
 			return "", false
@@ -215,7 +240,7 @@ func gallinaCase(cs *Case, cr *CaseResult, mode000 bool) string {
 	}
 	sort.Strings(keys)
 	for _, k := range keys {
-		sh = append(sh, lib.GPair(lib.GStr(k), lib.GStr(cr.Shadow[k])))
+		sh = append(sh, lib.GPair(gs(k), gs(cr.Shadow[k])))
 	}
 	var ops, outs []string
 	for i, op := range cs.Ops {
@@ -223,7 +248,7 @@ func gallinaCase(cs *Case, cr *CaseResult, mode000 bool) string {
 		var g string
 		switch op.Op {
 		case "load":
-			g = fmt.Sprintf("OpLoad %s %s", lib.GZ(int64(op.Ctx)), lib.GStr(op.Name))
+			g = fmt.Sprintf("OpLoad %s %s", lib.GZ(int64(op.Ctx)), gs(op.Name))
 		default:
 			k, ok := pos[op.Mod]
 			if !ok {
@@ -231,21 +256,21 @@ func gallinaCase(cs *Case, cr *CaseResult, mode000 bool) string {
 			}
 			switch op.Op {
 			case "has":
-				g = fmt.Sprintf("OpHas %s %s", lib.GNat(k), lib.GStr(op.Name))
+				g = fmt.Sprintf("OpHas %s %s", lib.GNat(k), gs(op.Name))
 			case "discover":
 				g = fmt.Sprintf("OpDiscover %s", lib.GNat(k))
 			case "effpath":
-				g = fmt.Sprintf("OpEffPath %s %s", lib.GNat(k), lib.GStr(op.Name))
+				g = fmt.Sprintf("OpEffPath %s %s", lib.GNat(k), gs(op.Name))
 			case "typednames":
-				g = fmt.Sprintf("OpTypedNames %s %s", lib.GNat(k), lib.GStr(op.Name))
+				g = fmt.Sprintf("OpTypedNames %s %s", lib.GNat(k), gs(op.Name))
 			}
 		}
 		var reads []string
 		for _, p := range o.Reads {
 			if k, rel, ok := fileRef(cs, mm, p); ok {
-				reads = append(reads, lib.GPair(lib.GNat(k), lib.GStr(rel)))
+				reads = append(reads, lib.GPair(lib.GNat(k), gs(rel)))
 			} else {
-				reads = append(reads, lib.GPair(lib.GNat(999), lib.GStr(p)))
+				reads = append(reads, lib.GPair(lib.GNat(999), gs(p)))
 			}
 		}
 		ops = append(ops, g)
